@@ -22,7 +22,7 @@ func init() { commands["C18"] = runC18 }
 
 func c18Cases(c runCfg) ([]*scratch.Pkg, []string, map[string]interface{}) {
 	rng := rand.New(rand.NewSource(c.Seed))
-	ngroups, per, nval := 4, 150, 4
+	ngroups, per, nval := 10, 120, 4
 	if c.Thorough {
 		ngroups, per, nval = 40, 400, 10
 	}
